@@ -1,5 +1,10 @@
 """C17 — editing, refining and saving tracks preserve the track data: correspondence + oracle
-(see DESIGN.md 6/C17).  Real kymographs and groups come from harness/builders_tracks.py."""
+(see DESIGN.md 6/C17).  Real kymographs and groups come from harness/builders_tracks.py.
+
+Private pylake members (DESIGN.md C17 "Robustness against refactorings"): only KymoTrackGroup._split_track /
+._merge_tracks are called from here (anchored, no public twin; see `editor`); the builders' private shortcuts have
+public twins (see builders_tracks).  A case that cannot be built or observed answers UNREACHABLE ("?"): skipped by
+agree / oracle / nontrivial, counted in coverage.skipped_unreachable_cases."""
 import itertools
 import json
 import math
@@ -98,6 +103,8 @@ ASSUMPTIONS = [
 warnings.simplefilter("ignore")
 TOL_RT = 1e-15  # relative, round trip (the property's own number)
 TOL_EDIT = 1e-9  # relative to scale, interpolation / minimum durations
+MD_TOL = 1e-12  # relative, minimum observable durations after editing (float products of line time and counts)
+MD_TOL_LOSSY = 5e-7 + 1e-12  # the same when the duration could only be read from the %.6e CSV column (7 significant digits)
 TOL_SPOT = 5e-3  # pixels, centroid refinement on noise-free interior spots (Gaussian: 0.05, optimiser termination)
 # spots whose window is clipped by the first / last pixel of the scan line (centre >= 2.5 sigma inside the image):
 #  centroid: the tail beyond the edge pixel is missing from the sum; one-sided truncation of a Gaussian at a >= 2.5 sigma
@@ -142,21 +149,29 @@ def prepare(case):
     key = json.dumps(case, sort_keys=True, default=str)
     if _CACHE["key"] == key:
         return _CACHE["val"]
+    try:
+        val = _prepare(case)
+    except B.Unreachable as e:
+        # a private builder helper is gone and no public route expresses this request: the case is skipped ("?")
+        val = {"unreachable": str(e)}
+    _CACHE["key"], _CACHE["val"] = key, val
+    return val
+
+
+def _prepare(case):
     k = case["k"]
     if k.get("img") == "spots":
         image = spot_image(case)
         kymo = B.make_kymo(image, route="array", calibration=k.get("cal", "um"), pixel_size_um=k.get("px_um", 0.1),
                            line_time_s=k.get("lt", 0.125), kbp_length=k.get("kbp"))
-        # _kymo_from_array keeps float images as they are: noise-free expectation values
+        # the array route keeps float images as they are: noise-free expectation values
     else:
         image = gen_image(k)
         kymo = build_kymo(k, image)
     tracks = [{"t": tr["t"], "c": tr["c"], "min_duration": tr.get("md"), "counts_half_width": tr.get("hw")} for tr in case.get("tracks", [])]
     group = B.make_group(kymo, tracks)
-    info = B.kymo_info(kymo)
-    val = {"kymo": kymo, "group": group, "info": info, "image": np.asarray(kymo.get_image("red")), "state0": B.group_state(group)}
-    _CACHE["key"], _CACHE["val"] = key, val
-    return val
+    info = B.kymo_info(kymo, calibration=k.get("cal", "um"))  # the unit is the calibration asked for, not a private attribute
+    return {"kymo": kymo, "group": group, "info": info, "image": np.asarray(kymo.get_image("red")), "state0": B.group_state(group)}
 
 
 def spot_image(case):
@@ -282,9 +297,76 @@ def canon_rows(parsed):
 
 
 def _kt():
-    from lumicks.pylake.kymotracker import kymotrack, kymotracker
+    """the documented module of KymoTrack / KymoTrackGroup / import_kymotrackgroup_from_csv (docs/api.rst) and the package,
+    whose exported refine_tracks_centroid / refine_tracks_gaussian are the public names of the anchored functions"""
+    import lumicks.pylake as lk
+    from lumicks.pylake.kymotracker import kymotrack
 
-    return kymotrack, kymotracker
+    return kymotrack, lk
+
+
+UNREACHABLE = "?"  # the harness could not build / observe this case without a private member that is gone: skipped
+_EDITORS = {}
+_EDITOR_SPECS = {"split": ("_split_track", 3), "merge": ("_merge_tracks", 4)}
+
+
+def _probe_editor(kymotrack, kymo, which, f):
+    """does `f` split / connect a two-track probe group the way the anchored method's docstring says?"""
+    try:
+        a = kymotrack.KymoTrack(np.array([0, 1, 2]), np.array([1.0, 1.5, 1.0]), kymo, "red", None)
+        b = kymotrack.KymoTrack(np.array([3]), np.array([2.0]), kymo, "red", None)
+        g = kymotrack.KymoTrackGroup([a, b])
+        if which == "split":
+            f(g, a, 1, 0)
+            return sorted([int(x) for x in tr.time_idx] for tr in g) == [[0], [1, 2], [3]]
+        f(g, a, 1, b, 0)
+        return [[int(x) for x in tr.time_idx] for tr in g] == [[0, 1, 3]]
+    except Exception:
+        return False
+
+
+def editor(kymotrack, kymo, which):
+    """KymoTrackGroup._split_track / ._merge_tracks: anchored mechanisms of the property that only exist as private methods
+    (the notebook widget is their only caller).  Taken by name; when a refactor renamed them: the single private plain
+    method of the class with exactly that many required positional parameters and no others (3: track, node, minimum
+    length; 4: track, node, track, node), accepted only after it split / connected a probe group correctly.
+    Raises B.Unreachable otherwise (the case becomes "?")."""
+    import inspect
+
+    cls = kymotrack.KymoTrackGroup
+    name, arity = _EDITOR_SPECS[which]
+    tie = "KymoTrackGroup." + name
+    if (cls, which) not in _EDITORS:
+        f, how = getattr(cls, name, None), "direct"
+        if f is None:
+            cands = []
+            for n, g in vars(cls).items():
+                if inspect.isfunction(g) and n.startswith("_") and not n.startswith("__"):
+                    ps = list(inspect.signature(g).parameters.values())[1:]
+                    if len(ps) == arity and all(q.default is q.empty and q.kind == q.POSITIONAL_OR_KEYWORD for q in ps):
+                        cands.append(g)
+            f, how = (cands[0], "rediscovered") if len(cands) == 1 and _probe_editor(kymotrack, kymo, which, cands[0]) else (None, "unreachable")
+        _EDITORS[(cls, which)] = (f, how)
+    f, how = _EDITORS[(cls, which)]
+    B._tie(tie, how)
+    if f is None:
+        raise B.Unreachable(f"{tie} is gone and no private method of KymoTrackGroup with {arity} parameters does its job")
+    return f
+
+
+def plus_twin(group, op, n):
+    """PUBLIC twin of the anchored merge for the one merge the public API can express: connecting the last node of a
+    track to the first node of a later one is `track + other` (KymoTrack.__add__)"""
+    try:
+        _, i, ni, j, nj = op
+        a, b = group[i], group[j]
+        if i != j and i >= 0 and j >= 0 and ni == len(a) - 1 and nj == 0 and int(a.time_idx[-1]) < int(b.time_idx[0]):
+            return {"n": n, "state": state_json([B.track_state(a + b)])[0]}
+    except B.Unreachable:
+        raise
+    except Exception:
+        pass
+    return None
 
 
 def with_aux(s, aux):
@@ -304,7 +386,24 @@ def impl(case):
     kind = case["kind"]
     if kind == "fmt":
         return [enc_rat(Fraction("%.6e" % float(case["x"])))]
-    kymotrack, kymotracker = _kt()
+    n_answers = 2 if kind == "rt" else 1
+    prep = prepare(case)
+    if "unreachable" in prep:
+        return [with_aux(UNREACHABLE, {"why": prep["unreachable"]})] * n_answers
+    partial = {}
+    try:
+        out = _impl(case, partial)
+    except B.Unreachable as e:
+        # a private member the observation needs is gone and has no public twin: skipped, never an implementation answer
+        return [with_aux(UNREACHABLE, dict(partial, why=str(e)))] * n_answers
+    if B.MD_LOSSY:  # minimum durations were read from the six-decimal CSV column (see builders_tracks.min_duration_of)
+        out = [with_aux(a, dict(x, lossy_md=True)) for a, x in map(split_aux, out)]
+    return out
+
+
+def _impl(case, partial):
+    kind = case["kind"]
+    kymotrack, lk = _kt()
     if kind == "rt":
         prep = prepare(case)
         path = os.path.join(_TMP, "rt.csv")
@@ -322,6 +421,8 @@ def impl(case):
             g2 = kymotrack.import_kymotrackgroup_from_csv(path, prep["kymo"], "red", delimiter=case["delim"])
             st = B.group_state(g2)
             a2 = with_aux(enc_group(st), {"state": state_json(st), "orig": state_json(prep["state0"])})
+        except B.Unreachable:
+            raise
         except Exception as e:
             a2 = "IOError" if isinstance(e, OSError) else errname(e)
         return [a1, a2]
@@ -334,6 +435,8 @@ def impl(case):
             g2 = kymotrack.import_kymotrackgroup_from_csv(path, prep["kymo"], "red", delimiter=case["delim"])
             st = B.group_state(g2)
             return [with_aux(enc_group(st), {"state": state_json(st)})]
+        except B.Unreachable:
+            raise
         except Exception as e:
             return ["IOError" if isinstance(e, OSError) else errname(e)]
     if kind == "prog":
@@ -341,12 +444,18 @@ def impl(case):
         group = kymotrack.KymoTrackGroup(list(prep["group"]))
         states = [state_json(B.group_state(group))]
         errs = []
-        for op in case["ops"]:
+        plus = partial.setdefault("plus", [])
+        for n, op in enumerate(case["ops"]):
+            if op[0] == "m":
+                tw = plus_twin(group, op, n)
+                if tw is not None:
+                    tw["pre"] = states[-1]
+                    plus.append(tw)
             try:
                 if op[0] == "s":
-                    group._split_track(group[op[1]], op[2], op[3])
+                    editor(kymotrack, prep["kymo"], "split")(group, group[op[1]], op[2], op[3])
                 elif op[0] == "m":
-                    group._merge_tracks(group[op[1]], op[2], group[op[3]], op[4])
+                    editor(kymotrack, prep["kymo"], "merge")(group, group[op[1]], op[2], group[op[3]], op[4])
                 elif op[0] == "f":
                     group.filter(minimum_length=op[1], minimum_duration=op[2])
                 elif op[0] == "i":
@@ -356,15 +465,17 @@ def impl(case):
                 else:
                     raise AssertionError(op)
                 errs.append("-")
+            except B.Unreachable:
+                raise
             except Exception as e:
                 errs.append(errname(e))
             states.append(state_json(B.group_state(group)))
         final = B.group_state(group)
-        return [with_aux("[" + ",".join(errs) + "] " + enc_group(final), {"states": states})]
+        return [with_aux("[" + ",".join(errs) + "] " + enc_group(final), {"states": states, "plus": plus})]
     if kind == "refine":
         prep = prepare(case)
         try:
-            r = kymotracker.refine_tracks_centroid(prep["group"], track_width=case["width"], bias_correction=case["bias"])
+            r = lk.refine_tracks_centroid(prep["group"], track_width=case["width"], bias_correction=case["bias"])
         except Exception as e:
             return [errname(e)]
         st = B.group_state(r)
@@ -373,7 +484,7 @@ def impl(case):
         prep = prepare(case)
         g = prep["group"]
         try:
-            r = kymotracker.refine_tracks_gaussian(g, window=case["window"], refine_missing_frames=case["missing"], overlap_strategy=case["strategy"])
+            r = lk.refine_tracks_gaussian(g, window=case["window"], refine_missing_frames=case["missing"], overlap_strategy=case["strategy"])
         except Exception as e:
             return [errname(e)]
         st = B.group_state(r)
@@ -414,6 +525,8 @@ def ops(case):
     if kind == "fmt":
         return ["c17.fmt6 " + enc_rat(float(case["x"]))]
     prep = prepare(case)
+    if "unreachable" in prep:
+        return ["c17.fmt6 0/1"] * (2 if kind == "rt" else 1)  # filler: the answers of a skipped case are never compared
     info = prep["info"]
     ky = enc_kymo(info)
     if kind == "rt":
@@ -460,7 +573,10 @@ def ops(case):
 
 def agree(case, i, ia, ma):
     kind = case["kind"]
-    ia, _ = split_aux(ia)
+    ia, aux = split_aux(ia)
+    if ia == UNREACHABLE:
+        return True  # nothing was observed: nothing to compare (see impl)
+    md_tol = MD_TOL_LOSSY if aux.get("lossy_md") else MD_TOL
     try:
         if kind == "fmt":
             return _rat(ia) == _rat(ma)
@@ -488,7 +604,7 @@ def agree(case, i, ia, ma):
         if kind == "prog":
             ea, _, ga = ia.partition(" ")
             em, _, gm = ma.partition(" ")
-            return ea == em and same_group(dec_group(ga), dec_group(gm), TOL_EDIT, md_exact=False)
+            return ea == em and same_group(dec_group(ga), dec_group(gm), TOL_EDIT, md_exact=False, md_tol=md_tol)
         if kind in ("refine", "gauss"):
             ta, mda = ia.split(" ")
             tm, mdm = ma.split(" ")
@@ -502,7 +618,8 @@ def agree(case, i, ia, ma):
     return ia == ma
 
 
-def same_group(ga, gm, tol, md_exact):
+def same_group(ga, gm, tol, md_exact, md_tol=None):
+    md_tol = MD_TOL if md_tol is None else md_tol
     if len(ga) != len(gm):
         return False
     for a, m in zip(ga, gm):
@@ -518,7 +635,7 @@ def same_group(ga, gm, tol, md_exact):
             if md_exact:
                 if float(a["min_duration"]) != float(m["min_duration"]):
                     return False
-            elif not relclose(a["min_duration"], m["min_duration"], 1e-12):
+            elif not relclose(a["min_duration"], m["min_duration"], md_tol):
                 return False
     return True
 
@@ -537,6 +654,12 @@ def oracle(case, ia):
     kind = case["kind"]
     if kind == "fmt":
         return None
+    if kind == "prog":
+        bad = oracle_plus(case, ia)
+        if bad:
+            return bad
+    if any(split_aux(a)[0] == UNREACHABLE for a in ia):
+        return None  # skipped case (see impl): no observation to judge
     if kind == "rt":
         return oracle_rt(case, ia)
     if kind == "read":
@@ -647,8 +770,23 @@ def cut(tr, lo, hi):
     return {"t": tr["t"][lo:hi], "c": tr["c"][lo:hi], "pos": tr["pos"][lo:hi], "md": tr["md"], "counts": None if tr["counts"] is None else tr["counts"][lo:hi]}
 
 
+def oracle_plus(case, ia):
+    """merge through the public API: `track + later_track` is the first track's nodes followed by the second's, with the
+    first track's minimum duration (and the photon counts when both have them)"""
+    _, aux = split_aux(ia[0])
+    for tw in aux.get("plus", []):
+        op = case["ops"][tw["n"]]
+        a_, b_ = tw["pre"][op[1]], tw["pre"][op[3]]
+        counts = a_["counts"] + b_["counts"] if (a_["counts"] is not None and b_["counts"] is not None) else None
+        exp = {"t": a_["t"] + b_["t"], "c": a_["c"] + b_["c"], "md": a_["md"], "counts": counts}
+        if not same_track(tw["state"], exp, 1e-15):
+            return f"merge: op {tw['n']} {op} through the public API: track + later track does not conserve the nodes (lines {tw['state']['t'][:12]}, expected {exp['t'][:12]})"
+    return None
+
+
 def oracle_prog(case, ia):
     a, aux = split_aux(ia[0])
+    md_tol = MD_TOL_LOSSY if aux.get("lossy_md") else MD_TOL
     errs = a.split(" ")[0][1:-1].split(",") if case["ops"] else []
     states = aux["states"]
     lt = prepare(case)["info"]["line_time"]
@@ -706,7 +844,7 @@ def oracle_prog(case, ia):
                 bound = max(Fraction(tr["md"] or 0), (L - 1) * Fraction(lt), math.ceil(Fraction(D) / Fraction(lt)) * Fraction(lt))
                 if got["t"] != tr["t"] or got["c"] != tr["c"] or got["counts"] != tr["counts"]:
                     return where + "filter changed the nodes of a kept track"
-                if got["md"] is None or not relclose(got["md"], bound, 1e-12):
+                if got["md"] is None or not relclose(got["md"], bound, md_tol):
                     return where + f"minimum observable duration {got['md']!r} instead of {float(bound)!r}"
         elif op[0] == "i":
             if err != "-" or len(post) != len(pre):
@@ -818,6 +956,8 @@ def oracle_gauss(case, ia):
 def nontrivial(case, ia):
     kind = case["kind"]
     a, aux = split_aux(ia[0])
+    if any(split_aux(x)[0] == UNREACHABLE for x in ia):
+        return False
     if kind == "fmt":
         return len(("%r" % float(case["x"])).replace(".", "").replace("-", "").lstrip("0").split("e")[0]) > 7
     if kind == "rt":
@@ -909,7 +1049,7 @@ def kspec(rng, *, n_lines, n_pixels, dyadic=False, cal=None, route=None):
     k = {"route": route, "cal": cal, "n_lines": n_lines, "n_pixels": n_pixels, "img_seed": rng.randint(0, 10**6),
          "px_um": rng.choice([0.1, 0.05, 0.07, 0.0833, round(rng.uniform(0.02, 0.3), 4)])}
     if route == "array":
-        k["lt"] = rng.choice([0.125, 0.5, 0.0625, 1.0, 0.03125 * 3]) if dyadic else rng.choice([0.125, 0.1, 0.016, round(rng.uniform(0.001, 2.0), 5)])
+        k["lt"] = rng.choice([0.125, 0.5, 0.0625, 1.0, 0.03125 * 3]) if dyadic else rng.choice([0.125, 0.1, 0.016, rng.randint(100, 200000) * 10000 * 1e-9])  # whole ns x 1e-9: also what a camera stack gives
     else:
         k["dt_ns"] = rng.choice([12800, 10000, 6400, 12800 * 3])
         k["spp"] = rng.randint(1, 4)
@@ -1351,9 +1491,15 @@ def extra_coverage(results):
         d[str(key)] = d.get(str(key), 0) + 1
 
     single_row = 0
+    skipped = {}
+    plus_twins = 0
     for r in results:
         c = r["case"]
         bump(kinds, c["kind"])
+        if any(a.split(" ## ")[0] == UNREACHABLE for a in r["impl"]):
+            bump(skipped, c["kind"])
+        if c["kind"] == "prog":
+            plus_twins += len(split_aux(r["impl"][0])[1].get("plus", []))
         for a in r["impl"]:
             head = a.split(" ## ")[0]
             if head.endswith("Error"):
@@ -1399,6 +1545,11 @@ def extra_coverage(results):
         "roundtrip_calibrations": cals, "roundtrip_kymo_routes": routes, "roundtrip_group_sizes": sizes,
         "roundtrip_longest_track": nodes, "roundtrip_single_row_files": single_row, "roundtrip_minimum_durations": mdk,
         "program_ops": opsk, "refinement_spot_places": refk, "dropped_for_margin": 0,
+        "private_ties": {k: dict(v) for k, v in sorted(B.PRIVATE_TIES.items())},
+        "private_ties_note": "how often each private pylake member was reached directly / replaced by its public twin / "
+                             "rediscovered under another name / unreachable (the case is then skipped as '?')",
+        "skipped_unreachable_cases": skipped, "merges_also_checked_through_public_add": plus_twins,
+        "minimum_durations_read_from_csv_column": bool(B.MD_LOSSY),
         "margin_note": "no case is dropped: coordinates within 1e-6 of 0.5 are moved by 0.01 at generation, filter thresholds and "
                        "rectangle bounds are drawn with their margin, merges that would cross two tracks (non-increasing lines) are re-drawn",
         "exhaustive": False,
